@@ -26,8 +26,8 @@ ROOT = Path(__file__).resolve().parent.parent
 REPO = Path(os.environ.get("VERIF_REPO", "/repo"))
 BUILD = ROOT / "build"
 COQ = ROOT / "coq"
-EVID = ROOT / "evidence"
-REPLAY = ROOT / "replay"
+EVID = Path(os.environ.get("VERIF_EVIDENCE_DIR", str(ROOT / "evidence")))   # overridden when checking a seeded mutation
+REPLAY = Path(os.environ.get("VERIF_REPLAY_DIR", str(ROOT / "replay")))
 
 ALLOWED_AXIOMS = {
     # axioms declared by the Coq standard library itself (named in DESIGN.md section 7)
